@@ -9,6 +9,7 @@
    (delimiter search, header block, Content-Disposition parameters as mime.ParseMediaType's
    consumeValue unquotes them). *)
 From ReqV Require Export Lib.Bytes.
+From ReqV Require Import Gen.SniffBuf.
 
 Definition cr : byte := x0d.
 Definition lf : byte := x0a.
@@ -84,9 +85,11 @@ Definition file_cd (f : file_upload) : bytes :=
 (* the 512-byte sniffing buffer: cbuf := make([]byte, 512); content.Read(cbuf);
    http.DetectContentType(cbuf) - the whole buffer, zero tail included *)
 Definition pad512 (s : bytes) : bytes :=
-  firstn 512 s ++ repeat x00 (512 - length (firstn 512 s)).
+  firstn sniff_buf_len s ++ repeat x00 (sniff_buf_len - length (firstn sniff_buf_len s)).
+(* buffer size and "whole buffer or cbuf[:size]" are regenerated from the source (Gen/SniffBuf.v) *)
 Definition sniff_input (f : file_upload) : bytes :=
-  pad512 (firstn (f_first f) (f_content f)).
+  let head := firstn (f_first f) (f_content f) in
+  if sniff_whole_buffer then pad512 head else head.
 
 Section Sniff.
   (* http.DetectContentType: stdlib, supplied by the harness as a table / a variable in proofs *)
